@@ -1,284 +1,16 @@
 package c04
 
 import (
-	"fmt"
-	"runtime"
-	"sync/atomic"
-	"time"
-
 	"pgregory.net/rapid"
 
-	spb "github.com/openconfig/gribi/v1/proto/service"
-	"github.com/openconfig/gribigo/constants"
-	"github.com/openconfig/gribigo/server"
-	"github.com/openconfig/ygot/ygot"
-
-	"verifh/internal/drive"
 	"verifh/internal/ev"
-	"verifh/internal/gen"
-	"verifh/internal/hgen"
-	"verifh/internal/l2"
+	"verifh/internal/sess"
 )
 
-// InFlight: a schedule the message-granularity scripts cannot express. The primary (session
-// 0, id Init) sends one request of NOps next-hop ADDs; the server is stopped, through the
-// public post-change hook, inside the StallAt-th of them. While that operation is in flight
-// the other sessions announce the ids Ann (in this order; each announcement is followed until
-// its response arrived or the session's handler is parked on a lock - goroutine state). Then
-// the operation is released. Whatever the server did meanwhile, once everything is quiet the
-// election state must be the one the announcements produce in their order, and exactly the
-// session that is then primary must have its correctly stamped operation accepted.
-type InFlight struct {
-	Init    gen.ID128 `json:"init"`
-	NOps    int       `json:"nops"`
-	StallAt int       `json:"stallat"`
-	Ann     []Ann     `json:"ann"`
-}
+// InFlight schedules live in package sess (shared with C05).
+type InFlight = sess.InFlight
+type Ann = sess.Ann
 
-type Ann struct {
-	S  int       `json:"s"` // 1..3
-	ID gen.ID128 `json:"id"`
-}
+func runInFlight(c Case) *ev.Verdict { return sess.RunInFlight(c.InFlight, "C04") }
 
-func runInFlight(c Case) *ev.Verdict {
-	v := &ev.Verdict{}
-	f := c.InFlight
-	var armed atomic.Bool
-	var adds int32
-	stalled := make(chan struct{})
-	release := make(chan struct{})
-	hook := func(op constants.OpType, _ int64, _ string, _ ygot.ValidatedGoStruct) {
-		if !armed.Load() {
-			return
-		}
-		if int(atomic.AddInt32(&adds, 1)) == f.StallAt {
-			close(stalled)
-			<-release
-		}
-	}
-	s := drive.NewSrv(true, hgen.NIs[1:], server.WithPostChangeRIBHook(hook))
-	nsess := 1
-	for _, a := range f.Ann {
-		if a.S+1 > nsess {
-			nsess = a.S + 1
-		}
-	}
-	xs := make([]*drive.Session, nsess)
-	last := make([]*gen.ID128, nsess)
-	fail := func(sig, format string, a ...any) { v.Fail("C04/"+sig, format, a...) }
-	defer func() {
-		select {
-		case <-release:
-		default:
-			close(release)
-		}
-		for _, x := range xs {
-			if x != nil {
-				x.Close()
-			}
-		}
-	}()
-	for i := range xs {
-		xs[i] = s.Open()
-		xs[i].Send(drive.StdParams(false))
-		if rs, ended, hg := xs[i].Barrier(); hg != nil || ended || len(rs) != 1 {
-			l2.HangFinding(v, "C04", hg)
-			if hg == nil {
-				fail("setup", "session %d: parameters not accepted: %v %v", i, xs[i].Err(), rs)
-			}
-			return v
-		}
-	}
-	xs[0].Send(&spb.ModifyRequest{ElectionId: f.Init.Proto()})
-	if rs, ended, hg := xs[0].Barrier(); hg != nil || ended || len(rs) != 1 {
-		l2.HangFinding(v, "C04", hg)
-		if hg == nil {
-			fail("setup", "primary: election not answered: %v %v", xs[0].Err(), rs)
-		}
-		return v
-	}
-	init := f.Init
-	last[0] = &init
-	cur, primary := f.Init, 0
-
-	// the request whose StallAt-th operation stays in flight
-	req := &spb.ModifyRequest{}
-	for i := 1; i <= f.NOps; i++ {
-		req.Operation = append(req.Operation, nhOp(uint64(i), gen.ADD, i, &init).Proto())
-	}
-	armed.Store(true)
-	if _, hg := xs[0].Send(req); hg != nil {
-		l2.HangFinding(v, "C04", hg)
-		return v
-	}
-	select {
-	case <-stalled:
-	case <-time.After(drive.Watchdog):
-		v.Inconclusive = "the post-change hook was not reached"
-		return v
-	}
-	armed.Store(false)
-
-	// announcements while the operation is in flight
-	waiting := 0
-	parkedSess := map[int]bool{}
-	var sentAnn []Ann
-	for ai, a := range f.Ann {
-		x := xs[a.S]
-		if x.Ended() || parkedSess[a.S] {
-			// a session whose announcement waits cannot be sent anything more before the release
-			continue
-		}
-		have := len(x.Responses())
-		if _, hg := x.Send(&spb.ModifyRequest{ElectionId: a.ID.Proto()}); hg != nil {
-			l2.HangFinding(v, "C04", hg)
-			return v
-		}
-		id := a.ID
-		last[a.S] = &id
-		sentAnn = append(sentAnn, a)
-		if a.ID.Cmp(cur) >= 0 {
-			cur, primary = a.ID, a.S
-		}
-		deadline := time.Now().Add(drive.Watchdog)
-		for {
-			if len(x.Responses()) > have || x.Ended() {
-				break
-			}
-			if where := x.ParkedOnLock(); where != "" {
-				waiting++
-				parkedSess[a.S] = true
-				v.Class("announcement-waits:" + where)
-				break
-			}
-			if time.Now().After(deadline) {
-				v.Inconclusive = fmt.Sprintf("announcement %d neither answered nor parked on a lock", ai)
-				return v
-			}
-			runtime.Gosched()
-		}
-	}
-	close(release)
-
-	// quiescence: every session answers a barrier
-	for i, x := range xs {
-		if x.Ended() {
-			fail("session-ended", "session %d ended with %v", i, x.Err())
-			return v
-		}
-		rs, ended, hg := x.Barrier()
-		if hg != nil {
-			l2.HangFinding(v, "C04", hg)
-			return v
-		}
-		if ended {
-			fail("session-ended", "session %d ended with %v", i, x.Err())
-			return v
-		}
-		if i == 0 {
-			seen := map[uint64]int{}
-			for _, m := range rs {
-				for _, r := range m.GetResult() {
-					seen[r.GetId()]++
-				}
-			}
-			for id, n := range seen {
-				if n > 1 {
-					fail("answered-twice", "operation %d of the in-flight request got %d results", id, n)
-				}
-			}
-			// operations processed before the hand-over were legitimately accepted
-			for i := 1; i <= f.StallAt; i++ {
-				if seen[uint64(i)] != 1 {
-					fail("in-flight-op-unanswered", "operation %d (processed before any announcement was delivered) has %d results", i, seen[uint64(i)])
-				}
-			}
-		}
-	}
-	gotID, gotMaster := s.S.VerifElection()
-	if gotID == nil || gen.FromProto128(gotID).Cmp(cur) != 0 {
-		fail("election-id", "after the announcements %v (made while operation %d of %d of the primary was in flight) the learnt election id is %v, the maximum announced is %s", f.Ann, f.StallAt, f.NOps, gotID, cur)
-	}
-	who := -1
-	for i, x := range xs {
-		if x.CID == gotMaster {
-			who = i
-		}
-	}
-	if waiting > 0 {
-		// announcements that had to wait are served in an order of the server's choosing: the
-		// primary must then be one of the sessions that announced the final maximum
-		ok := false
-		for _, a := range sentAnn {
-			if a.ID.Cmp(cur) == 0 && a.S == who {
-				ok = true
-			}
-		}
-		if f.Init.Cmp(cur) == 0 && who == 0 {
-			ok = true
-		}
-		if !ok {
-			fail("primary", "after the announcements %v (some of which waited for the in-flight operation) the primary is session %d, which did not announce the maximum %s", f.Ann, who, cur)
-		} else {
-			primary = who
-		}
-	} else if gotMaster != xs[primary].CID {
-		fail("primary", "after the announcements %v (made while operation %d of %d of the primary was in flight) the primary is session %d, the most recent announcer of the maximum is session %d", f.Ann, f.StallAt, f.NOps, who, primary)
-	}
-	if len(v.Findings) > 0 {
-		return v
-	}
-	// behavioural probe: each session sends an operation stamped with its own last id
-	acc, rej := 0, 0
-	for i, x := range xs {
-		if last[i] == nil {
-			continue
-		}
-		o := nhOp(uint64(1000+i), gen.ADD, 100+i, last[i])
-		x.Send(&spb.ModifyRequest{Operation: []*spb.AFTOperation{o.Proto()}})
-		rs, ended, hg := x.Barrier()
-		if hg != nil {
-			l2.HangFinding(v, "C04", hg)
-			return v
-		}
-		ok := false
-		for _, m := range rs {
-			for _, r := range m.GetResult() {
-				if r.GetId() == o.ID && r.GetStatus() == spb.AFTResult_RIB_PROGRAMMED {
-					ok = true
-				}
-			}
-		}
-		want := i == primary && last[i].Cmp(cur) == 0
-		switch {
-		case ok && !want:
-			fail("non-primary-accepted", "after the announcements %v (in flight: op %d of %d): session %d (last id %s) is not the primary (session %d, id %s) but its operation was programmed", f.Ann, f.StallAt, f.NOps, i, last[i], primary, cur)
-		case !ok && want:
-			fail("primary-rejected", "after the announcements %v (in flight: op %d of %d): session %d is the primary with id %s but its operation was not programmed (ended=%v %v)", f.Ann, f.StallAt, f.NOps, i, cur, ended, rs)
-		}
-		if ok {
-			acc++
-		} else {
-			rej++
-		}
-	}
-	v.Class("in-flight-schedule")
-	if primary != 0 {
-		v.Class("handover-while-an-operation-is-in-flight")
-	}
-	v.NonTrivial = len(f.Ann) >= 2 && acc > 0 && rej > 0
-	return v
-}
-
-func drawInFlight(rt *rapid.T) Case {
-	f := &InFlight{Init: gen.ID128{Hi: uint64(rapid.IntRange(0, 1).Draw(rt, "hi")), Lo: uint64(rapid.IntRange(1, 5).Draw(rt, "lo"))}}
-	f.NOps = rapid.IntRange(1, 4).Draw(rt, "nops")
-	f.StallAt = rapid.IntRange(1, f.NOps).Draw(rt, "stallat")
-	for n := rapid.IntRange(1, 5).Draw(rt, "nann"); n > 0; n-- {
-		id := gen.ID128{Hi: uint64(rapid.IntRange(0, 2).Draw(rt, "ahi")), Lo: uint64(rapid.IntRange(1, 8).Draw(rt, "alo"))}
-		f.Ann = append(f.Ann, Ann{S: rapid.IntRange(1, 3).Draw(rt, "s"), ID: id})
-	}
-	return Case{InFlight: f}
-}
-
-var _ = ev.JSON
+func drawInFlight(rt *rapid.T) Case { return Case{InFlight: sess.DrawInFlight(rt)} }
